@@ -300,6 +300,17 @@ AddRecursion(mi, form) ==
                      f == [name |-> "f" \o ToString(Len(ms1[mi].fields) + 1), kind |-> "string", ref |-> "", card |-> "single",
                            key |-> "", oneof |-> w.idx, anns |-> <<>>]
                  IN msgs' = [ms1 EXCEPT ![mi] = [w.m EXCEPT !.fields = Append(@, f)]]
+         [] form = "flatoneof" ->     \* a flattened child whose members sit in an exposed oneof: the oneof's member paths are
+                                      \* relative to the child, while the parent has fields of other kinds at the same numbers
+              /\ Len(msgs) < MaxMsgs
+              /\ LET t == Len(msgs) + 1
+                     ms0 == PutField(mi, "int32", "", "single", "string", "none", "none")
+                     ms == [ms0 EXCEPT ![mi].fields = Append(@, [name |-> "f" \o ToString(Len(ms0[mi].fields) + 1), kind |-> "message",
+                                 ref |-> MsgName(t), card |-> "single", key |-> "", oneof |-> 0,
+                                 anns |-> <<[cls |-> "j5", arm |-> "object", var |-> "flatten", consistent |-> TRUE]>>])]
+                     m1 == [name |-> "f1", kind |-> "string", ref |-> "", card |-> "single", key |-> "", oneof |-> 1, anns |-> <<>>]
+                     m2 == [name |-> "f2", kind |-> "bool", ref |-> "", card |-> "single", key |-> "", oneof |-> 1, anns |-> <<>>]
+                 IN msgs' = ms \o <<[NewMsg(t, 0, "none") EXCEPT !.oneofs = <<[name |-> "choice", opt |-> "expose"]>>, !.fields = <<m1, m2>>]>>
          [] form = "mutual" ->
               /\ Len(msgs) < MaxMsgs
               /\ LET t == Len(msgs) + 1
